@@ -33,9 +33,12 @@ def panel(case):
     lens = case["lengths"]
     rng = np.random.RandomState(case["seed"] % (2 ** 31 - 1))
     cells = [[np.round(rng.normal(size=lens[i]).cumsum() * case.get("scale", 1.0), 5) for _ in range(c)] for i in range(n)]
+    if case.get("int_cells"):
+        # integer-valued observations stored with an integer dtype (counts)
+        cells = [[np.round(v * 4).astype("int64") for v in row] for row in cells]
     equal = len(set(lens)) == 1
     if case.get("container") == "numpy3d" and equal:
-        X = np.array(cells, dtype=float)
+        X = np.array(cells, dtype="int64" if case.get("int_cells") else float)
     else:
         X = pd.DataFrame({"dim_%d" % j: [pd.Series(cells[i][j].copy()) for i in range(n)] for j in range(c)})
     return cells, X
@@ -512,6 +515,7 @@ def panel_cases(draw, unequal=False, max_c=3, min_len=2, extra=None):
     for k, s in (extra or {}).items():
         case[k] = draw(s)
     case["prefit"] = draw(st.sampled_from([None, None, -3, -1, 2, 5]))
+    case["int_cells"] = draw(st.integers(0, 4)) == 0
     return case
 
 
